@@ -851,10 +851,22 @@ class C03(Check):
             if name == "_create_cache":
                 continue
             cache_names = set()
+
+            def is_cache_expr(e: ast.AST) -> bool:
+                if norm(e) in ("self._create_cache()", "self._cache"):
+                    return True
+                if isinstance(e, ast.IfExp):
+                    return is_cache_expr(e.body) and is_cache_expr(e.orelse)
+                if isinstance(e, ast.NamedExpr):
+                    return is_cache_expr(e.value)
+                if isinstance(e, ast.BoolOp) and isinstance(e.op, ast.Or):
+                    return all(is_cache_expr(v) for v in e.values)
+                return False
+
             for n in walk_no_nested(fn):
-                if isinstance(n, ast.NamedExpr) and norm(n.value) == "self._cache":
+                if isinstance(n, ast.NamedExpr) and is_cache_expr(n.value):
                     cache_names.add(n.target.id)
-                if isinstance(n, ast.Assign) and isinstance(n.targets[0], ast.Name) and norm(n.value) in ("self._create_cache()", "self._cache"):
+                if isinstance(n, ast.Assign) and isinstance(n.targets[0], ast.Name) and is_cache_expr(n.value):
                     cache_names.add(n.targets[0].id)
             for a in fn.args.args + fn.args.kwonlyargs:
                 if a.arg == "cache":
